@@ -241,7 +241,7 @@ fn mutate_window(w: &Value, which: usize) -> Option<(String, bool, Value)> {
 		2 => ("index=MAX".into(), len <= max, mk(buf, json!(max))),
 		3 => ("index>MAX".into(), true, mk(buf, json!(max as u128 + 1))),
 		4 => ("buf=MAX-elements".into(), true, mk(grown(max.min(70000)), json!(0))),
-		5 => ("buf=MAX+1-elements".into(), true, mk(grown((max + 1).min(70001)), json!(0))),
+		5 => ("buf=MAX+1-elements".into(), true, mk(grown(max.saturating_add(1).min(70001)), json!(0))),
 		6 => ("buf=1000-elements".into(), max < 1001, mk(grown(1000), json!(0))),
 		7 => ("empty-buf-index-1".into(), true, mk(vec![], json!(1))),
 		8 => ("index-negative".into(), true, mk(buf, json!(-1))),
